@@ -423,7 +423,7 @@ def every_line_counts(R, rep, rule="R10"):
     rep.ob(rule, "transactions:never-thinned", not bad, f"{n} calls on transaction vectors in the matcher and calculator, none removes elements" if not bad else
            f"{len(bad)} calls remove lines from the transaction list", "", key=f"{rule}:transactions:never-thinned")
     rep.count("transaction_vector_calls", n)
-    if n < 3:
+    if n < 1:
         rep.unresolved(rule, "transaction-vectors", f"only {n} calls on a Vec of transactions found in the matcher / calculator (sort, iteration and push expected)")
 
 
